@@ -185,9 +185,13 @@ def start_state_from_dask(dsk, cache=None, sortkey=None, keys=None):
         dependents[key]
         waiting_data[key]
         dependencies[key]
+        if key in cache:
+            # a result the caller already has (``cache=``): there is nothing
+            # to run for it and nobody waits for it
+            continue
         task = dsk.get(key, None)
         if task is None:
-            if dependents[key] and not cache.get(key):
+            if dependents[key]:
                 raise ValueError(
                     f"Missing dependency {key} for dependents {dependents[key]}"
                 )
